@@ -415,6 +415,15 @@ Fixpoint sel_repeated (s : selection) : bool :=
   | SSpread _ _ body => has_repeated_inline None body || existsb sel_repeated body
   end.
 
+(** a response key selected more than once in one selection set *)
+Definition repeats_key (l : list selection) : bool := negb (nodupb (map fst (direct_fields l))).
+Fixpoint sel_repeats_key (s : selection) : bool :=
+  match s with
+  | SField _ _ sub => repeats_key sub || existsb sel_repeats_key sub
+  | SInline _ sub => repeats_key sub || existsb sel_repeats_key sub
+  | SSpread _ _ body => repeats_key body || existsb sel_repeats_key body
+  end.
+
 Fixpoint type_features (S : schema) (t : gqltype) : list string :=
   match t with
   | TNamed n => match lookup_type S n with
@@ -609,6 +618,8 @@ Definition check (c : sexp) : sexp :=
                                             (if existsb (fun o => existsb sel_repeated (op_sels o) || has_repeated_inline None (op_sels o)) (d_ops d)
                                              then ["merged-inline-fragments"] else []) ++
                                             (if existsb (fun o => union_cond Sch (op_sels o)) (d_ops d) then ["union-condition"] else []) ++
+                                            (if existsb (fun o => repeats_key (op_sels o) || existsb sel_repeats_key (op_sels o)) (d_ops d)
+                                             then ["repeated-key"] else []) ++
                                             (match p_enums p with [] => [] | _ => ["enum"] end) ++
                                             feats ++
                                             (if exp_frag then ["nontrivial"] else []))
